@@ -315,6 +315,9 @@ class FuncContract:
       m = {"goal": text}
       if timeout_ms:
         m["timeout_ms"] = timeout_ms
+      rp = _native_func_replay(self, R, text)
+      if rp is not None:
+        m["replay"] = rp
       # chain: clause i may use clauses 0..i-1 (each of which is itself an obligation of this run)
       # cases: an exhaustive case split (checked: the disjunction of the cases is itself an obligation); each clause is
       # proved once per case, which lets if-then-else terms on the case condition collapse before the solver runs
@@ -328,3 +331,81 @@ class FuncContract:
       out.append(R.obligation(f"{name}#cases_exhaustive", z3.Or(*[zb(tobool(R.term(c))) for c in cases]), kind="contract", meta={"goal": "the case split is exhaustive"}))
     out += R.side_obligations(name + "#")
     return out
+
+
+_SIMPLE = {"float": "float", "int": "int", "bool": "bool", "wp.vec3": "vec3", "wp.vec3f": "vec3", "wp.quat": "quat", "wp.mat33": "mat33", "wp.vec2": "vec2", "wp.vec4": "vec4", "vec3": "vec3", "quat": "quat", "mat33": "mat33"}
+
+
+def _num(m, t):
+  """value of z3 term t in model m as a python float"""
+  v = m.eval(t, model_completion=True)
+  if z3.is_true(v):
+    return 1.0
+  if z3.is_false(v):
+    return 0.0
+  if z3.is_int_value(v):
+    return float(v.as_long())
+  if z3.is_rational_value(v):
+    return float(v.numerator_as_long()) / float(v.denominator_as_long())
+  if z3.is_algebraic_value(v):
+    a = v.approx(20)
+    return float(a.numerator_as_long()) / float(a.denominator_as_long())
+  raise ValueError(f"no numeric value for {t}")
+
+
+def _native_func_replay(contract, R, clause):
+  """-> callable(model, obligation) that replays a counter-model of `clause` on the real function (scenarios/
+  replay_func.py under the repo's interpreter), or None when the function's signature is outside what that script
+  runs (array parameters, ghost results)"""
+  import json
+  import os
+
+  if contract.ghosts:
+    return None
+  node = contract.info.node
+  ptypes = []
+  for a in node.args.args:
+    ann = contract.param_types.get(a.arg) or (ast.unparse(a.annotation) if a.annotation is not None else "")
+    t = _SIMPLE.get(ann)
+    if t is None:
+      return None
+    ptypes.append((a.arg, t))
+  if contract.ret is not None:
+    rts = list(contract.ret) if isinstance(contract.ret, (list, tuple)) else [contract.ret]
+  elif node.returns is not None:
+    r = node.returns
+    if isinstance(r, ast.Subscript) and ast.unparse(r.value).split(".")[-1] == "Tuple":
+      elts = r.slice.elts if isinstance(r.slice, ast.Tuple) else [r.slice]
+      rts = [_SIMPLE.get(ast.unparse(x)) for x in elts]
+    else:
+      rts = [_SIMPLE.get(ast.unparse(r))]
+  else:
+    return None
+  if any(t is None for t in rts):
+    return None
+  module, func = contract.key.split(":")
+  if "." in func:
+    return None
+  requires = list(contract.requires)
+
+  def run(model, ob):
+    if model is None:
+      return {"reproduced": None, "note": "no model object"}
+    from . import replay as rp
+
+    params = []
+    for name, t in ptypes:
+      v = R.params[name]
+      comps = v.comps if isinstance(v, Vec) else [v]
+      params.append([name, t, [_num(model, lift(c, "float") if t not in ("int", "bool") else lift(c)) for c in comps]])
+    here = os.path.dirname(os.path.dirname(os.path.abspath(__file__)))
+    os.makedirs(os.path.join(here, "replay"), exist_ok=True)
+    safe = "".join(ch if ch.isalnum() or ch in "._-" else "_" for ch in ob.oid)[:100]
+    path = os.path.join("replay", f"func_{safe}.input.json")
+    with open(os.path.join(here, path), "w") as f:
+      json.dump({"module": module, "func": func, "params": params, "ret": rts, "requires": requires, "clause": clause}, f, indent=1)
+    cmd = ["VENV_PYTHON", "scenarios/replay_func.py", path]
+    rc, out = rp.run_native(cmd)
+    return {"native_cmd": cmd, "exit": rc, "reproduced": rc == 1, "output": out[-2500:], "meaning": "exit 1: the real function, run by Warp on the counter-model's inputs, violates the clause; 0: it does not on these inputs; 2: inputs not executable / preconditions not met numerically"}
+
+  return run
